@@ -182,14 +182,14 @@ def main():
                 stage_dir = vlib.stage(stage_name + "-" + g.get("name", "g"), "kani", wide=(tier == "thorough"))
                 with lock:
                     extra_dirs.append(stage_dir)
-            # with a single job, concrete playback is requested up front: a failing
-            # harness then prints its counterexample in the same run (Kani refuses
-            # --concrete-playback together with --jobs)
+            # concrete playback is never requested up front: with it Kani hands CBMC
+            # a formula 2.7x larger (18M instead of 7M variables on the window
+            # harnesses); failing harnesses are re-run with playback below
             res = vlib.run_kani(stage_dir, hs, features=g.get("features"), jobs=g.get("jobs", 8),
                                 timeout_s=g.get("timeout_s", 3000), mem_gb=g.get("mem_gb", 20),
                                 cbmc_args=g.get("cbmc_args", vlib.DEFAULT_CBMC_ARGS), log_path=log,
                                 harness_timeout=g.get("harness_timeout_s", 1200), exact=True,
-                                playback=(len(hs) == 1 or g.get("jobs", 8) == 1))
+                                playback=False)
             if not res["harnesses"] and res["rc"] != 0:
                 tail = "\n".join(l for l in res["out"].splitlines() if l.startswith("error"))[:1500]
                 with lock:
@@ -203,6 +203,34 @@ def main():
                                       "covers": r and [r["covers_sat"], r["covers"]],
                                       "failed_checks": r and r["failed_checks"][:6]}
             failing = [h for h in hs if harness_results[h]["class"] == "fail"]
+            # known finding, quick tier: if every failed check of the harness is the
+            # listed site and the committed witness (findings/<prop>.<harness>.quick.json)
+            # still reproduces natively on this tree, the finding is confirmed without
+            # the second, playback run of Kani (which alone takes longer than the
+            # quick budget); anything else goes through the full path below
+            for h in list(failing):
+                wpath = os.path.join(VERIF, "findings", "%s.%s.%s.json" % (prop, h, tier))
+                kfs = [k for k in known if k["harness"] == h]
+                fc = harness_results[h]["failed_checks"] or []
+                if not (kfs and fc and os.path.exists(wpath)):
+                    continue
+                kf = next((k for k in kfs if all(k["site"] in c for c in fc)), None)
+                if not kf:
+                    continue
+                w = json.load(open(wpath))
+                rdir = get_replay_dir()
+                with lock:
+                    rr = native_replay(h, w["values"], rdir, features=g.get("features"))
+                if any(v["status"] == "reproduced" and kf["site"] in (v.get("panic") or "") for v in rr.values()):
+                    hr = harness_results[h]
+                    hr["class"] = "known"
+                    hr["failed_assertion"] = fc[0]
+                    hr["values"] = w["values"]
+                    hr["replay"] = {k: {"status": v["status"], "panic": v.get("panic")} for k, v in rr.items()}
+                    hr["note"] = ("solver verdict FAILED on the listed assertion only; concrete values are the committed "
+                                  "witness %s, reproduced natively on this tree" % os.path.relpath(wpath, VERIF))
+                    print("KNOWN-FINDING: property=%s %s (harness %s)" % (prop, kf["what"], h), flush=True)
+                    failing.remove(h)
             if failing:
                 pb = parse_playback(res["out"])
                 missing = [h for h in failing if not pick_counterexample(pb.get(h, []))]
